@@ -53,10 +53,12 @@ namespace sim
                s.null = atom_meta[ r.atom % N_ATOMS ].nullable;
                break;
             case OP_SEQ2:
+            case OP_D_SEQ_CS:
                return seq_sem( an, { a, b } );
             case OP_SEQ3:
                return seq_sem( an, { a, b, c } );
             case OP_SOR2:
+            case OP_D_SOR_CSS:
                s.null = na || nb;
                s.left = bit( a ) | bit( b );
                break;
@@ -70,6 +72,9 @@ namespace sim
             case OP_NOT_AT:
             case OP_REP_MAX:
             case OP_REP_OPT:
+            case OP_D_STAR_EA:
+            case OP_D_OPT_DA:
+            case OP_D_AT_EA:
                s.null = true;
                s.left = bit( a );
                break;
@@ -104,10 +109,17 @@ namespace sim
             case OP_MINUS:
             case OP_REMATCH:
             case OP_REMATCH2:
+            case OP_D_MUST_CS:
+            case OP_D_ENABLE_DA:
+            case OP_D_DISABLE_EA:
+            case OP_D_STATE_CSS:
+            case OP_D_TC_CS:
+            case OP_D_PLUS_CS:
                s.null = na;
                s.left = bit( a );
                break;
             case OP_UNTIL2:
+            case OP_D_UNTIL_EA:
                s.null = na;
                s.left = bit( a ) | bit( b );
                break;
@@ -136,6 +148,7 @@ namespace sim
                break;
             case OP_IF_THEN_ELSE:
             case OP_IF_MUST_ELSE:
+            case OP_D_ITE_DA:
                s.null = ( na && nb ) || nc;
                s.left = bit( a ) | bit( c ) | ( na ? bit( b ) : 0 );
                break;
@@ -216,9 +229,12 @@ namespace sim
             case OP_PLUS:
             case OP_REP_MIN:
             case OP_RAW:
+            case OP_D_STAR_EA:
+            case OP_D_PLUS_CS:
                ok = !na;
                break;
             case OP_UNTIL2:
+            case OP_D_UNTIL_EA:
                ok = !nb;
                break;
             case OP_LIST:
@@ -369,8 +385,8 @@ namespace sim
    namespace
    {
       const std::uint8_t grp_consume[] = { OP_SEQ2, OP_SEQ3, OP_SOR2, OP_SOR3, OP_UNTIL1, OP_UNTIL2, OP_REP2, OP_REP_MIN_MAX, OP_REP_MIN, OP_IF_THEN_ELSE, OP_STRICT, OP_STAR_STRICT, OP_REMATCH, OP_REMATCH2, OP_MINUS, OP_IF_APPLY, OP_RAW, OP_TC_RF, OP_TC_ANY_RF, OP_LIST, OP_PAD, OP_AT, OP_NOT_AT };
-      const std::uint8_t grp_exc[] = { OP_TC_RF2, OP_TC_STD_RF2, OP_TC_TYPE_RF2, OP_TC_RN2, OP_TC_TYPE_RN2, OP_MUST, OP_IF_MUST, OP_IF_MUST_ELSE, OP_OPT_MUST, OP_STAR_MUST, OP_LIST_MUST, OP_TC_RF, OP_TC_ANY_RF, OP_TC_STD_RF, OP_TC_TYPE_RF, OP_TC_RN, OP_TC_ANY_RN, OP_TC_STD_RN, OP_TC_TYPE_RN, OP_SEQ2, OP_SOR2, OP_STAR, OP_OPT, OP_AT, OP_W_CB2, OP_IF_APPLY };
-      const std::uint8_t grp_state[] = { OP_STATE, OP_W_CS, OP_W_CSS, OP_W_EA, OP_W_DA, OP_ENABLE, OP_DISABLE, OP_AT, OP_NOT_AT, OP_MINI, OP_SEQ2, OP_SOR2, OP_STAR, OP_OPT, OP_TC_ANY_RF, OP_MUST };
+      const std::uint8_t grp_exc[] = { OP_D_TC_CS, OP_D_MUST_CS, OP_D_SEQ_CS, OP_TC_RF2, OP_TC_STD_RF2, OP_TC_TYPE_RF2, OP_TC_RN2, OP_TC_TYPE_RN2, OP_MUST, OP_IF_MUST, OP_IF_MUST_ELSE, OP_OPT_MUST, OP_STAR_MUST, OP_LIST_MUST, OP_TC_RF, OP_TC_ANY_RF, OP_TC_STD_RF, OP_TC_TYPE_RF, OP_TC_RN, OP_TC_ANY_RN, OP_TC_STD_RN, OP_TC_TYPE_RN, OP_SEQ2, OP_SOR2, OP_STAR, OP_OPT, OP_AT, OP_W_CB2, OP_IF_APPLY };
+      const std::uint8_t grp_state[] = { OP_D_SEQ_CS, OP_D_SOR_CSS, OP_D_STAR_EA, OP_D_OPT_DA, OP_D_MUST_CS, OP_D_ENABLE_DA, OP_D_DISABLE_EA, OP_D_STATE_CSS, OP_D_TC_CS, OP_D_AT_EA, OP_D_ITE_DA, OP_D_PLUS_CS, OP_D_UNTIL_EA, OP_STATE, OP_W_CS, OP_W_CSS, OP_W_EA, OP_W_DA, OP_ENABLE, OP_DISABLE, OP_AT, OP_NOT_AT, OP_MINI, OP_SEQ2, OP_SOR2, OP_STAR, OP_OPT, OP_TC_ANY_RF, OP_MUST };
       const std::uint8_t grp_limits[] = { OP_W_LB1, OP_W_LB3, OP_W_LD1, OP_W_LD2, OP_W_CB2, OP_SEQ2, OP_SEQ3, OP_SOR2, OP_STAR, OP_OPT, OP_AT, OP_NOT_AT, OP_TC_RF, OP_TC_ANY_RF, OP_PLUS, OP_UNTIL1 };
       const std::uint8_t grp_stream[] = { OP_SEQ2, OP_SEQ3, OP_SOR2, OP_STAR, OP_PLUS, OP_UNTIL1, OP_UNTIL2, OP_LIST, OP_PAD, OP_RAW, OP_REMATCH, OP_MINUS, OP_AT, OP_NOT_AT, OP_REP_MIN_MAX, OP_IF_THEN_ELSE };
       const std::uint8_t grp_tree[] = { OP_T_SOR_BT, OP_T_SOR_TC, OP_SEQ2, OP_SOR2, OP_STAR, OP_OPT, OP_PLUS, OP_AT, OP_NOT_AT, OP_TC_ANY_RF, OP_TC_RF, OP_MUST, OP_LIST, OP_MINI, OP_IF_THEN_ELSE, OP_UNTIL2 };
@@ -604,7 +620,8 @@ namespace sim
                case OP_TC_STD_RF2:
                case OP_TC_TYPE_RF2:
                case OP_TC_RN2:
-               case OP_TC_TYPE_RN2:
+                  case OP_TC_TYPE_RN2:
+               case OP_D_SEQ_CS:
                   node( a, d );
                   node( b, d );
                   break;
@@ -614,6 +631,7 @@ namespace sim
                   node( c, d );
                   break;
                case OP_SOR2:
+               case OP_D_SOR_CSS:
                   node( r.chance( 1, 2 ) ? a : b, d );
                   break;
                case OP_SOR3: {
@@ -624,6 +642,7 @@ namespace sim
                case OP_STAR:
                case OP_REP_MAX:
                case OP_REP_OPT:
+               case OP_D_STAR_EA:
                   for( unsigned i = reps( 0, 2 ); i > 0; --i ) {
                      node( a, d );
                   }
@@ -631,6 +650,7 @@ namespace sim
                case OP_PLUS:
                case OP_REP_MIN:
                case OP_REP_MIN_MAX:
+               case OP_D_PLUS_CS:
                   for( unsigned i = reps( 1, 3 ); i > 0; --i ) {
                      node( a, d );
                   }
@@ -640,11 +660,13 @@ namespace sim
                   node( a, d );
                   break;
                case OP_OPT:
+               case OP_D_OPT_DA:
                   if( r.chance( 2, 3 ) ) {
                      node( a, d );
                   }
                   break;
                case OP_AT:
+               case OP_D_AT_EA:
                   if( r.chance( 1, 3 ) ) {
                      node( a, d );
                   }
@@ -658,6 +680,7 @@ namespace sim
                   node( a, d );
                   break;
                case OP_UNTIL2:
+               case OP_D_UNTIL_EA:
                   for( unsigned i = reps( 0, 2 ); i > 0; --i ) {
                      node( b, d );
                   }
@@ -717,6 +740,7 @@ namespace sim
                   break;
                case OP_IF_THEN_ELSE:
                case OP_IF_MUST_ELSE:
+               case OP_D_ITE_DA:
                   if( r.chance( 1, 2 ) ) {
                      node( a, d );
                      node( b, d );
@@ -918,7 +942,7 @@ namespace sim
             else {
                row.op = static_cast< std::uint8_t >( 1 + r.below( N_MOPS - 1 ) );
                if( p.focus == FOCUS_STATE && r.chance( 1, 2 ) ) {
-                  const std::uint8_t sw[] = { MOP_CA, MOP_CC, MOP_ACTION, MOP_CONTROL, MOP_CAS, MOP_CASS, MOP_DISABLE, MOP_ENABLE, MOP_STATE };
+                  const std::uint8_t sw[] = { MOP_CA, MOP_CC, MOP_ACTION, MOP_CONTROL, MOP_CAS, MOP_CASS, MOP_DISABLE, MOP_ENABLE, MOP_STATE, MOP_CONTROL_CS, MOP_CONTROL_DA, MOP_ACTION_CAS, MOP_ACTION_CASS, MOP_DISABLE_CA, MOP_STATE_CC };
                   row.op = sw[ r.below( sizeof( sw ) ) ];
                }
             }
